@@ -71,7 +71,8 @@ _w("C06", 25, 600,
 _w("C10", 30, 900,
    "each run enrolls nodes A and B (optionally under node IDs, storage wrapper on/off, NodeIdLoader on/off) and issues 3-12 rotation requests: encrypting key in {A's current, A's previous generation, B's, unrelated} x identification in {key ID of current/encrypting/other/unknown key, node ID own/other/unknown with tape-chosen lookup order} x inner request in {honest, token nonce inside, bad signature, expired, not yet valid, for an already registered key} x wire corruption {bit flip, truncation, short/empty AEAD ciphertext} plus replays of accepted payloads and chains A0->A1->A2 where the application records previous keys and retires old records. Node records with and without state, callers passing WithState to the rotation, inner requests that name another record's ID in the bundle's id field. Non-trivial: all; distinct by (encrypting key, identification, inner variant, corruption, outcome, scope size, via-previous-key).",
    ["reference model is derived from the stored records with independent X25519 (crypto/ecdh): honored iff some record in the lookup scope decrypts the payload with its current or recorded previous key, the inner request is valid and its key is not registered; a replay is judged by the same rule",
-    "a corrupted blob may still decrypt to the original message (bits outside the authenticated ciphertext): then all honored-postconditions must hold"])
+    "a corrupted blob may still decrypt to the original message (bits outside the authenticated ciphertext): then all honored-postconditions must hold",
+    "the simulated histories issue one rotation request at a time: rotations of DIFFERENT nodes overlapping in one server process (state shared between calls) are exercised by the auxiliary free-running -race stress (bin/racestress C10; 8 s quick, 90 s thorough), which checks facts load cannot disturb: each node's honest rotation is honored, its reply opens with that node's own pre-rotation key and with no other node's, the new record carries that node's state, requests under an unrelated or another node's key are refused"])
 _w("C11", 25, 600,
    "each run evolves one (node credentials, node information) pair through 0-3 key rotations (all keys, only the certificate key = same secret/new key ID, or only the encryption keys), with the previous key recorded on one, both or neither side and either side possibly left behind; messages of seven library message types are encrypted by either side, held in flight across rotations, delivered in tape-chosen order, optionally corrupted (one bit, multi-byte overwrite, truncation, AEAD ciphertext cut to 0-40 bytes, arbitrary bytes, a valid blob of another pair). Receivers with blank key IDs, and deliveries decrypted into a message that still holds an earlier message of the same type. Non-trivial: every delivery that is corrupted or crosses a rotation; distinct by (direction, matches current, matches previous, rotations crossed, corruption, outcome, message type).",
    ["expected outcome computed with crypto/ecdh and an independent key-ID computation: success iff the sender's (secret, key ID) equals the receiver's current or recorded previous one",
